@@ -16,6 +16,51 @@ CLAIMED = {
    technique="Coq proof by induction on paths + worklist closure invariant; vm_compute correspondence against /repo",
    ref="4 (C03)"),
 }
+CLAIMED.update({
+ "C02": dict(
+   text="Coq proof that the model of Shape.focus_nodes (five target kinds, implicit class targets through SHACL-instance of rdfs:Class in the shapes graph, "
+        "rdflib's transitive subclass walk) returns, without duplicates, exactly the nodes the SHACL target semantics prescribes, on arbitrary graphs incl. "
+        "subclass cycles; differential correspondence of Shape.focus_nodes and of validate() (sh:in () makes sh:focusNode enumerate the focus set).",
+   note=BASE_NOTE + "The shape-cache construction (_build_node_shape_cache) is exercised by correspondence only, not modelled.",
+   technique="Coq proof (closure = clos_refl_trans, reuse of the C03 path theorems) + vm_compute correspondence",
+   ref="4 (C02)"),
+ "C04": dict(
+   text="Coq proofs about the executable model of Shape.validate and the shape-expecting components, for every environment (recursive or not), option setting "
+        "and depth: conform <-> no results (shape and component level); not/and/or/xone/qualified depend on members' conformance only; every result is owned by "
+        "the validated shape or a property shape reached through sh:property (no leak; details only under sh:node; severity of the owning shape); deactivated => conforms. "
+        "Model tied to /repo by differential correspondence of full reports (multisets with nested details) on random nested shapes graphs.",
+   note=BASE_NOTE + "Leaf components limited to class/nodeKind/min-maxCount/hasValue/in here (all core leaves: C01).",
+   technique="Coq proof by induction on evaluator fuel over a model with the nested evaluator as parameter + vm_compute correspondence",
+   ref="4 (C04)"),
+ "C11": dict(
+   text="Coq proofs: the verdict equals 'all reported top-level results have a waived severity' under every option combination (also with abort_on_first); "
+        "turning allow_infos/allow_warnings on or off never changes the reported results; verdicts are monotone in the waiver. Correspondence plus metamorphic "
+        "check on the real code over the four option combinations.",
+   note=BASE_NOTE + "Holds for the code after the fix: commit 4cb5e8c in /repo (the pre-fix code is refuted by the check).",
+   technique="Coq proof (loop invariant nw = not all_waived acc; extensionality of the evaluator) + correspondence + metamorphic relation on /repo",
+   ref="4 (C11)"),
+ "C12": dict(
+   text="Coq proof of a simulation between the complete run and the abort_on_first run through every component, the constraint loop and the validator loop: same verdict, "
+        "aborted results form a sub-list of the complete results with possibly fewer nested details, non-conforming => at least one result; for every environment, "
+        "order of shapes/constraints and waiver setting. Correspondence and metamorphic check (abort on/off x waivers) on the real code.",
+   note=BASE_NOTE,
+   technique="Coq simulation proof (relation le_list + equal waiver status) + correspondence + metamorphic relation on /repo",
+   ref="4 (C12)"),
+ "C13": dict(
+   text="Coq proofs: the focus_nodes filter narrows each shape's own targets and is not even an input of nested evaluation; target declarations are invisible to the evaluator "
+        "(rewriting them anywhere in the environment changes no evaluation), hence use_shapes=U equals the run on the shapes graph with all other targets removed; both options apply U x F. "
+        "Correspondence of the selection logic and metamorphic check against target-rewritten shapes graphs on the real code (IRIs and CURIEs).",
+   note=BASE_NOTE + "CURIE expansion is exercised by the differential run only.",
+   technique="Coq proof (environment-map invariance of the evaluator) + correspondence + metamorphic relation on /repo",
+   ref="4 (C13)"),
+ "C19": dict(
+   text="Coq proofs for arbitrary cyclic shape references and cyclic data: the model never runs out of fuel max_validation_depth+1 (termination); a nested evaluation entered at/beyond the limit is the "
+        "'too deep' failure; an Ok answer is unchanged under any larger limit (never silently truncated); non-recursive (ranked) shapes graphs below the limit never fail with 'too deep'; "
+        "recursion_triggers is inert on ranked shapes graphs (report = report without back-out). Correspondence on chains around the limit (1..30) and random recursive shapes graphs under a wall-clock limit.",
+   note=BASE_NOTE + "Python's own stack and wall-clock time are outside the model (probed by the 30 s limit per run).",
+   technique="Coq proof (fuel/depth invariant, refinement order on results, rank argument) + vm_compute correspondence",
+   ref="4 (C19)"),
+})
 NOT_YET = {}
 ALL = ["C%02d" % i for i in range(1, 21)]
 REASONS = {}
